@@ -18,6 +18,10 @@ CONTENTS = [
     ">s1\nACGTACGTAC\nGTNNNNACGT\nACGAAAA\n>s2\nTTGACCATTT\n>s3\nNNNNACGT\n",
     ">x\nAC\n",
     ">s1 first\nACGTACGTAC\nGTNNNNACGT\nACG\n>s2\nTTGACCA\n>s9\nGGGGGGGGGGGGGGGGGGGGGGGGGGGGGGGGGGGGGGGGGGGGGGGGGGGGGGGGGGGGGGGGGGGGGGG\n",
+    # the LAST record ends in a run of N (the cached .agp then ends with a gap line)
+    ">s1 first\nACGTACGTAC\nGTNNNNACGT\nACG\n>s2\nTTGACCANNN\nNNNN\n",
+    # the same layout as the first content (same names, lengths, line widths) with an interval masked
+    ">s1 first\nACGTACGTAC\nGTNNNNNNNN\nACG\n>s2\nTTGNNCA\n",
     # record names that bytes.split() (the indexer) and str.split() (the .fai reader) cut differently:
     # FS / US inside the name, a no-break space (UTF-8), several such names collapsing to one prefix.
     # Judged by the oracle only (the protocol model does not look inside the files).
@@ -26,7 +30,7 @@ CONTENTS = [
     ">a\x1f7 x\nAC\n>b\nACGTNNNN\n",
     ">s1\u20035\nACGT\n",
 ]
-N_MODEL_CONTENTS = 4
+N_MODEL_CONTENTS = 6
 
 
 def snapshot(fi):
@@ -102,6 +106,12 @@ class C15(Prop):
             yield {"gen": "names/cold-warm", "steps": [["rewrite", k, True], ["tick"], ["load", None], ["tick"], ["load", None]]}
             yield {"gen": "names/after-plain", "steps": [["rewrite", 0, True], ["tick"], ["load", None], ["rewrite", k, True],
                                                         ["tick"], ["load", None], ["load", None]]}
+        # content changed under an unchanged layout, with a cache that is older / of the same age / newer
+        for tick in (True, False):
+            yield {"gen": "history/masked-in-place", "steps": [["rewrite", 0, True], ["tick"], ["load", None], ["rewrite", 5, tick],
+                                                               ["tick"], ["load", None], ["load", None]]}
+            yield {"gen": "history/trailing-gap", "steps": [["rewrite", 4, True], ["tick"], ["load", None], ["load", None],
+                                                            ["rewrite", 0, tick], ["load", None]]}
         for second in (1, 2):
             yield {"gen": "history/symlink-rewrite", "symlink": True,
                    "steps": [["rewrite", 0, True], ["tick"], ["load", None], ["rewrite", second, True], ["tick"], ["load", None]]}
